@@ -47,7 +47,7 @@ func (b *Body) pureClosureTerm(cl *Closure, args []*T, st State) (*T, bool) {
 		}
 		return nil, false
 	}
-	locals := map[ssa.Value]*T{}         // local alloc -> current value
+	locals := map[ssa.Value]*T{} // local alloc -> current value
 	type lfield struct {
 		al  ssa.Value
 		sel string
